@@ -509,6 +509,9 @@ def execute(w, ev):
         if fn.startswith(_HERE) and not isinstance(x, Veto) and not getattr(x, "injected", False):
             raise HarnessError("exception inside the harness: %r" % (x,)) from x
         name = type(x).__name__
+        import re as _re
+        w.last_error = _re.sub(r"0x[0-9a-fA-F]+|\d+", "#", str(x.args[0]) if x.args else "")[:60] if not isinstance(
+            x, Veto) else "veto"
         if getattr(x, "injected", False):
             name = type(x).__mro__[1].__name__
         return "refused:" + name, []
